@@ -482,7 +482,7 @@ Returns:
             from mystic.monitors import Null
             evalmon = Null()
         else: evalmon = self._evalmon
-        fcalls, cost = wrap_function(cost, ExtraArgs, evalmon)
+        self._fcalls, cost = wrap_function(cost, ExtraArgs, evalmon, start=self._fcalls[0])
         if self._useStrictRange:
             indx = list(self.popEnergy).index(self.bestEnergy)
             ngen = self.generations #XXX: no random if generations=0 ?
@@ -556,6 +556,7 @@ Notes:
         # apply penalty
        #trialEnergy = map(self._penalty, self.trialSolution)#,**self._mapconfig)
         # calculate cost
+        fcalls = self._fcalls[0]
         trialEnergy = self._map(cost, self.trialSolution, **self._mapconfig)
 
         # each trialEnergy should be a scalar
@@ -564,10 +565,8 @@ Notes:
             # for len(trialEnergy) > 1, will throw ValueError below
 
         #FIXME: manually adjusts fcalls due to use of map
-        fcalls = len(self._evalmon)
-        if fcalls: # leverage the evalmon
-            self._fcalls[0] = fcalls
-        else: # use trialEnergy, removing 'skipped' evaluations
+        if self._fcalls[0] == fcalls: # cost was not evaluated in this process
+            # use trialEnergy, removing 'skipped' evaluations
             self._fcalls[0] += len(trialEnergy) - isinf(trialEnergy).sum()
 
         for candidate in range(self.nPop):
